@@ -821,6 +821,109 @@ Example connect_refused_example :
   wr (run Current c (sched_open_before_release 1)) = [].
 Proof. repeat split; vm_compute; reflexivity. Qed.
 
+(* ---- the record of handshakes in progress is a bracket around BOTH outcomes ------------------- *)
+Theorem marker_bracket c sched :
+  let w := run Current c sched in
+  match rpc w with
+  | RBegin | RDone => inflight w = 0%nat
+  | _ => inflight w = 1%nat
+  end.
+Proof.
+  intros w. destruct (run_inv c sched) as (_ & (Hr & _) & _). fold w in Hr.
+  destruct (rpc w); unfold quiet in Hr; tauto.
+Qed.
+
+Lemma done_facts c w :
+  Inv c w -> rpc w = RDone ->
+  inflight w = 0%nat /\ (r_closed w = true -> registered w = None) /\
+  (registered w = None -> r_closed w = true).
+Proof.
+  intros (_ & (Hr & _) & _) Ed. rewrite Ed in Hr. destruct Hr as (H0 & [H|H]).
+  - destruct H as (id & R1 & _ & R3 & _). repeat split; auto; congruence.
+  - destruct H as (B1 & B2 & _). repeat split; auto.
+Qed.
+
+(* a finished handshake -- accepted or refused -- leaves no record behind *)
+Theorem refused_leaves_no_marker c sched :
+  rpc (run Current c sched) = RDone ->
+  inflight (run Current c sched) = 0%nat /\
+  (r_closed (run Current c sched) = true -> registered (run Current c sched) = None).
+Proof. intros Ed. destruct (done_facts c _ (run_inv c sched) Ed) as (H1 & H2 & _). auto. Qed.
+
+(* so a later attempt starts from a state in which the invariant holds again *)
+Lemma next_attempt_inv c1 c2 w1 :
+  Inv c1 w1 -> rpc w1 = RDone -> Inv c2 (forget_registration (next_attempt w1)).
+Proof.
+  intros HI Ed. destruct (done_facts c1 w1 HI Ed) as (H0 & _).
+  unfold Inv, inv_i, inv_r, inv_w, quiet; cbn. repeat split; auto; try discriminate.
+  all: intros; try contradiction; try discriminate.
+Qed.
+
+Lemma next_attempt_inv_refused c1 c2 w1 :
+  Inv c1 w1 -> rpc w1 = RDone -> registered w1 = None -> Inv c2 (next_attempt w1).
+Proof.
+  intros HI Ed En. destruct (done_facts c1 w1 HI Ed) as (H0 & _).
+  unfold Inv, inv_i, inv_r, inv_w, quiet; cbn. repeat split; auto; try discriminate.
+  all: intros; try contradiction; try discriminate.
+Qed.
+
+Theorem usable_from c w0 sched id :
+  Inv c w0 -> self_consistent (rsp c) ->
+  returned (run_from Current c w0 sched) = Some id ->
+  id = proven_ident (rsp c) /\ Forall (good_stream c) (wr (run_from Current c w0 sched)).
+Proof.
+  intros H0 Hc E. pose proof (run_from_inv c sched w0 H0) as HI. split.
+  - eapply returned_identity; eauto.
+  - eapply usable_inv; eauto.
+Qed.
+
+Theorem handled_eventually_from c w0 sched k :
+  Inv c w0 -> self_consistent (rsp c) ->
+  (k < length (wr (run_from Current c w0 sched)))%nat ->
+  nth_error (wr (run_from Current c w0 (sched ++ repeat R 5 ++ [W k; W k; W k]))) k =
+  Some (WHandled (proven_ident (ini c))).
+Proof.
+  intros H0 Hc Hk. rewrite !run_from_app.
+  pose proof (run_from_inv c sched w0 H0) as HI. set (w := run_from Current c w0 sched) in *.
+  assert (Hne : wr w <> []) by (destruct (wr w); cbn in Hk; [lia|discriminate]).
+  assert (Hid : exists id, ipc w = IOpen id).
+  { destruct HI as ((_ & _ & _ & Hi4) & _). apply Hi4; auto. }
+  destruct Hid as (id & Eo).
+  destruct (r_steps c 5 w id HI Hc Eo) as (HI' & Eo' & Ew & Eret & Hrk). cbv zeta in *.
+  set (w' := run_from Current c w (repeat R 5)) in *.
+  assert (Ed : rpc w' = RDone) by (apply rrank0; destruct (r_step_rank c w id HI Hc Eo); lia).
+  destruct (done_registered c w' id HI' Hc Eo' Ed) as (Ereg & Einf).
+  destruct (nth_error (wr w') k) as [s|] eqn:Es;
+    [|apply nth_error_None in Es; rewrite Ew in Es; lia].
+  assert (Eret' : returned w' = Some id).
+  { destruct HI' as ((_ & _ & H3 & _) & _). rewrite Eo' in H3. exact H3. }
+  pose proof (usable_inv c w' id HI' Hc Eret') as Hg.
+  rewrite Forall_forall in Hg. destruct (Hg s (nth_error_In _ _ Es)) as (G1 & G2).
+  eapply w_three; eauto. intros j' ->. apply G2; auto.
+Qed.
+
+(* what a record that is never removed would do: the stream of the next attempt waits for ever *)
+Example stale_marker_blocks :
+  let w0 := set_inflight 1 init in
+  wr (run_from Current ex_cfg w0 (sched_open_before_release 1)) = [WWait] /\
+  wr (run_from Current ex_cfg w0 (sched_open_before_release 1 ++ repeat R 5 ++ [W 0; W 0; W 0])) = [WWait] /\
+  registered (run_from Current ex_cfg w0 (sched_open_before_release 1)) = Some (proven_ident ex_ini).
+Proof. repeat split; vm_compute; reflexivity. Qed.
+
+(* a refused attempt (the initiating node's registry does not know the provider responder)
+   followed by an accepted one *)
+Definition ex_cfg_unknown_rsp : cfg :=
+  {| ini := ex_ini;
+     rsp := {| pid_addr := 22; sig_addr := Some 22; ks_addr := 22; ptype := t_provider; staked := false |} |}.
+Example retry_after_refused_example :
+  let w1 := run Current ex_cfg_unknown_rsp sched_handshake in
+  rpc w1 = RDone /\ returned w1 = None /\ r_closed w1 = true /\ registered w1 = None /\
+  inflight w1 = 0%nat /\ ga_calls w1 = 0%nat /\
+  wr (run_from Current ex_cfg (next_attempt w1) (sched_before 1)) = [WWait] /\
+  wr (run_from Current ex_cfg (next_attempt w1) (sched_open_before_release 1)) =
+  [WHandled (proven_ident ex_ini)].
+Proof. repeat split; vm_compute; reflexivity. Qed.
+
 (* ---- another connection of the same peer closing is invisible ------------------------------------ *)
 Lemma conn_close_other_inert v c s1 s2 :
   run v c (s1 ++ ConnCloseOther :: s2) = run v c (s1 ++ s2).
@@ -890,6 +993,38 @@ Lemma C20_refusing_responder_stmt : forall (c : cfg) (sched : list who) (id : id
   Forall (fun s => forall j, s <> WHandled j) (wr (run deployed c sched)).
 Proof. exact inconsistent_responder_refuses_deployed. Qed.
 
+
+Lemma C20_no_marker_stmt : forall (c : cfg) (sched : list who),
+  rpc (run deployed c sched) = RDone ->
+  inflight (run deployed c sched) = 0%nat /\
+  (r_closed (run deployed c sched) = true -> registered (run deployed c sched) = None).
+Proof. rewrite deployed_current. exact refused_leaves_no_marker. Qed.
+
+Lemma C20_after_earlier_attempt_stmt : forall (c1 c2 : cfg) (s1 s2 : list who) (id : ident),
+  rpc (run deployed c1 s1) = RDone ->
+  ks_addr (rsp c2) = pid_addr (rsp c2) ->
+  let w0 := forget_registration (next_attempt (run deployed c1 s1)) in
+  returned (run_from deployed c2 w0 s2) = Some id ->
+  id = (pid_addr (rsp c2), ptype (rsp c2)) /\
+  Forall (fun s => s <> WUnknown /\ s <> WTorn /\
+                   forall j, s = WHandled j ->
+                             j = (pid_addr (ini c2), ptype (ini c2)) /\
+                             sig_addr (ini c2) = Some (pid_addr (ini c2)))
+         (wr (run_from deployed c2 w0 s2)) /\
+  forall k, (k < length (wr (run_from deployed c2 w0 s2)))%nat ->
+    nth_error (wr (run_from deployed c2 w0 (s2 ++ repeat R 5 ++ [W k; W k; W k]))) k =
+    Some (WHandled (pid_addr (ini c2), ptype (ini c2))).
+Proof.
+  rewrite deployed_current. intros c1 c2 s1 s2 id Ed Hc w0 E.
+  assert (H0 : Inv c2 w0) by (apply (next_attempt_inv c1); auto; apply run_inv).
+  destruct (usable_from c2 w0 s2 id H0 Hc E) as (H1 & H2). split; auto. split.
+  - eapply Forall_impl; [|exact H2]. intros s. apply good_stream_spelled.
+  - intros k Hk. apply handled_eventually_from; auto.
+Qed.
+
+Lemma forget_registration_id w : registered w = None -> forget_registration w = w.
+Proof. destruct w; cbn. intros ->. reflexivity. Qed.
+
 (* ---- the boolean checker of check/Check_C20.v reflects the theorem ----------------------------- *)
 Lemma unle_inj : forall a b : bytes,
   length a = length b -> wf_bytes a -> wf_bytes b -> unle a = unle b -> a = b.
@@ -924,6 +1059,28 @@ Proof.
   rewrite H2. apply IH; auto.
 Qed.
 
+Lemma start_of_inv c1 c2 p w1 w0 : Inv c1 w1 -> start_of p w1 = Some w0 -> Inv c2 w0.
+Proof.
+  intros HI1 Es. unfold start_of in Es.
+  destruct (p =? 0); [injection Es as <-; apply inv_init|].
+  assert (Hd : is_done (rpc w1) = true -> rpc w1 = RDone).
+  { destruct (rpc w1); cbn; congruence. }
+  destruct (p =? 1).
+  - destruct (is_done (rpc w1)) eqn:Ed; cbn [andb] in Es; [|discriminate].
+    destruct (registered w1) eqn:Er; cbn [andb negb is_some] in Es; [discriminate|].
+    destruct (returned w1); cbn [andb negb is_some] in Es; [discriminate|]. injection Es as <-.
+    apply (next_attempt_inv_refused c1); auto.
+  - destruct (is_done (rpc w1)) eqn:Ed; cbn [andb] in Es; [|discriminate].
+    destruct (is_some (registered w1) && is_some (returned w1)); [|discriminate]. injection Es as <-.
+    apply (next_attempt_inv c1); auto.
+Qed.
+
+Lemma start_world_inv (c : case) w0 : start_world c = Some w0 -> Inv (cfg_of c) w0.
+Proof.
+  unfold start_world, prior_world. rewrite deployed_current.
+  apply (start_of_inv (prior_cfg c)). apply run_inv.
+Qed.
+
 (* If an observation is one the model produces under some schedule that has run every opened
    stream to its end, and it lies in the claim (Connect succeeded, responder self-consistent),
    then the checker finds no violation in it: what the checker demands of the implementation
@@ -931,21 +1088,32 @@ Qed.
 Theorem checker_reflects (c : case) (sched : list who) :
   in_claim c = true ->
   explains c sched = true ->
-  forallb finished (wr (run deployed (cfg_of c) sched)) = true ->
+  (forall w0, start_world c = Some w0 ->
+              forallb finished (wr (run_from deployed (cfg_of c) w0 sched)) = true) ->
   addr_shape (i_addr c) -> Forall obs_shape (outcomes c) ->
   violation c = None.
 Proof.
   unfold explains, violation, in_claim. intros Hc He Hf Hi Ho.
   rewrite Hc. apply andb_prop in Hc. destruct Hc as (Hok & Hks).
+  destruct (start_world c) as [w0|] eqn:Es; [|discriminate].
+  specialize (Hf w0 eq_refl).
+  pose proof (start_world_inv c w0 Es) as H0.
   apply andb_prop in He. destruct He as (He & _). apply andb_prop in He. destruct He as (Hret & Hall).
-  set (w := run deployed (cfg_of c) sched) in *.
+  rewrite deployed_current in *.
+  set (w := run_from Current (cfg_of c) w0 sched) in *.
   assert (Hcons : ks_addr (rsp (cfg_of c)) = pid_addr (rsp (cfg_of c))).
   { unfold cfg_of; cbn. rewrite Hks. reflexivity. }
   assert (Hr : exists id, returned w = Some id).
   { unfold ret_agrees in Hret. destruct (returned w) as [id|]; eauto.
     rewrite Hok in Hret. discriminate. }
   destruct Hr as (id & Hr).
-  destruct (C20_usable_stmt (cfg_of c) sched id Hcons Hr) as (_ & Hg). fold w in Hg.
+  destruct (usable_from (cfg_of c) w0 sched id H0 Hcons Hr) as (_ & Hg'). fold w in Hg'.
+  assert (Hg : Forall (fun s => s <> WUnknown /\ s <> WTorn /\
+                   forall j, s = WHandled j ->
+                             j = (pid_addr (ini (cfg_of c)), ptype (ini (cfg_of c))) /\
+                             sig_addr (ini (cfg_of c)) = Some (pid_addr (ini (cfg_of c)))) (wr w)).
+  { eapply Forall_impl; [|exact Hg']. intros s. apply good_stream_spelled. }
+  clear Hg'.
   apply fold_violation_none.
   revert Hall Hf Hg Ho. generalize (wr w) as l. generalize (outcomes c) as m.
   induction m as [|o m IH]; intros [|s l] Hall Hf Hg Ho; cbn in *; try discriminate; constructor.
@@ -969,7 +1137,7 @@ Definition ex_case (o : list sres) (e : N) : case :=
   {| id := 0; klass := 0; nstreams := 1; ninit := 1;
      i_addr := x "1954c423a424456a2b2b319270f81eea62ecda3e"; i_type := 2; i_staked := true;
      r_addr := x "3a1f92eeedde6b66f1424b553339f32fd4afd177"; r_type := 1; r_staked := true;
-     r_ks_ok := true; conn_close_other := false; connect_ok := true;
+     r_ks_ok := true; prior := 0; prior_ok := false; conn_close_other := false; connect_ok := true;
      ret_addr := x "3a1f92eeedde6b66f1424b553339f32fd4afd177"; ret_type := 1;
      early := e; reg_at_gate := false; outcomes := o; ga := 1 |}.
 
